@@ -4,6 +4,7 @@ package main
 
 import (
 	"fmt"
+	"os"
 	"go/ast"
 	"go/token"
 	"go/types"
@@ -226,6 +227,18 @@ func (x *Unit) prepareCall(st *State, e *ast.CallExpr) *preparedCall {
 			}
 		}
 		pc.kind = "external"
+		// externals (framework functions) may be given an assumed contract by name: <pkg>.<Type>.<Method> or <pkg>.<Func>
+		if fn.Pkg() != nil {
+			cname := fn.Pkg().Name() + "." + fn.Name()
+			if rs := fn.Type().(*types.Signature).Recv(); rs != nil {
+				cname = fn.Pkg().Name() + "." + recvTypeName(rs.Type()) + "." + fn.Name()
+			}
+			if c := x.lookupDynContract(cname, "", nil); c != nil {
+				pc.kind = "contract"
+				pc.contract = c
+				pc.name = cname
+			}
+		}
 		return pc
 	}
 	// call of a function-typed value
@@ -502,7 +515,7 @@ func (x *Unit) raise(st *State, v Term) {
 // ---------------------------------------------------------------------------
 // traces
 
-func (x *Unit) traceEvent(st *State, key string, args []Term, rets []Term) {
+func (x *Unit) traceEvent(st *State, key string, args []Term, rets []Term) Term {
 	for _, ls := range x.loopStmtStack {
 		if x.loopKeys[ls] == nil {
 			x.loopKeys[ls] = map[string]bool{}
@@ -512,7 +525,9 @@ func (x *Unit) traceEvent(st *State, key string, args []Term, rets []Term) {
 	x.regComp("clk", SInt)
 	x.regComp("TL:"+key, SInt)
 	x.regComp("TT:"+key, x.U.arraySort(SInt, SInt))
+	x.regComp("TP:"+key, x.U.arraySort(SInt, SBool))
 	n := x.get(st, "TL:"+key)
+	x.set(st, "TP:"+key, Store(x.get(st, "TP:"+key), n, False))
 	for i, a := range args {
 		c := x.regTraceComp(fmt.Sprintf("TA:%s:%d", key, i), a.Sort)
 		if c != "" {
@@ -530,6 +545,22 @@ func (x *Unit) traceEvent(st *State, key string, args []Term, rets []Term) {
 	x.set(st, "clk", T("(+ "+clk.S+" 1)", SInt))
 	x.set(st, "TL:"+key, T("(+ "+n.S+" 1)", SInt))
 	x.callees[key] = true
+	return n
+}
+
+// raiseFromCall records the exceptional edge of call number n of key: in that state the call is marked as panicked
+// (its recorded results are meaningless).
+func (x *Unit) raiseFromCall(st *State, key string, n Term, pv Term) {
+	if st.dead() {
+		return
+	}
+	// the call either panics or returns: the two continuations are distinguished by a fresh boolean
+	b := x.freshVal("panics", SBool, nil)
+	ps := x.withCond(st, b)
+	x.set(ps, "TP:"+key, Store(x.get(ps, "TP:"+key), n, True))
+	x.raise(ps, pv)
+	cont := x.withCond(st, Not(b))
+	st.pc = cont.pc
 }
 
 func (x *Unit) regTraceComp(comp string, s *Sort) string {
@@ -597,10 +628,10 @@ func (x *Unit) defaultDynamic(st *State, pc *preparedCall) []Term {
 	x.abstractions["dynamic call "+pc.name+": arbitrary user code (may panic, may re-enter)"] = true
 	x.interfere(st, pc.node, "call "+pc.name)
 	rets := x.freshResults(pc.sig, pc.name)
-	x.traceEvent(st, pc.name, targs, rets)
+	n := x.traceEvent(st, pc.name, targs, rets)
 	// exceptional edge
 	pv := x.freshVal("panicval", SIface, nil)
-	x.raise(st, pv)
+	x.raiseFromCall(st, pc.name, n, pv)
 	return rets
 }
 
@@ -762,7 +793,7 @@ func (x *Unit) applyContract(st *State, pc *preparedCall) []Term {
 		}
 		rets = x.freshResults(pc.sig, pc.name)
 	}
-	x.traceEvent(st, pc.name, targs, rets)
+	callIdx := x.traceEvent(st, pc.name, targs, rets)
 	if len(c.Monitor) > 0 {
 		env := x.contractEnv(st, pre, pc, rets)
 		for _, en := range c.Monitor {
@@ -786,9 +817,9 @@ func (x *Unit) applyContract(st *State, pc *preparedCall) []Term {
 			for _, en := range c.Panics {
 				x.assume(ps, env.boolOf(en.Expr))
 			}
-			x.raise(ps, pv)
+			x.raiseFromCall(ps, pc.name, callIdx, pv)
 		} else {
-			x.raise(st, pv)
+			x.raiseFromCall(st, pc.name, callIdx, pv)
 		}
 	}
 	return rets
@@ -981,6 +1012,11 @@ func (x *Unit) finishFrame(fr *frame) (*State, *State) {
 	}
 	all = append(all, fr.panics...)
 	if len(fr.defers) == 0 {
+		if os.Getenv("GOVC_DEBUG") != "" && fr.unitTop {
+			for i, ps := range fr.panics {
+				fmt.Fprintf(os.Stderr, "panic state %d: pc=%s dead=%v close=%v\n", i, ps.pc.S, ps.dead(), ps.heap["TL:godi.Scope.Close"].S)
+			}
+		}
 		n := x.merge(fr.returns...)
 		p := x.merge(fr.panics...)
 		return n, p
@@ -1455,7 +1491,7 @@ func isFrameInternal(e SExpr, c *FuncContract) bool {
 			walk(v.Y)
 		case *SCall:
 			switch v.Fn {
-			case "ncalls", "callarg", "callret", "calltime":
+			case "ncalls", "callarg", "callret", "calltime", "callpanicked":
 				found = true
 			}
 			for _, a := range v.Args {
